@@ -284,10 +284,10 @@ let show_bview (c : bcase) : string =
         (show_list show_state st)
 
 let mask_of_string (s : string) : mask =
-  (* seven characters: e(rror presence/class/kind) p(ayload = format arguments) m(essage text)
-     r(emaining) v(alues) c(alled) w(riter), '1' = compare *)
+  (* eight characters: e(rror presence/class/kind) p(ayload = format arguments) m(essage text)
+     r(emaining) v(alues) c(alled) w(riter) o(rder: model result invariant under reversed tables), '1' = compare *)
   let g i = String.length s > i && s.[i] = '1' in
-  { m_err = g 0; m_args = g 1; m_msg = g 2; m_rem = g 3; m_val = g 4; m_called = g 5; m_warn = g 6 }
+  { m_err = g 0; m_args = g 1; m_msg = g 2; m_rem = g 3; m_val = g 4; m_called = g 5; m_warn = g 6; m_perm = g 7 }
 
 let () =
   let mask = if Array.length Sys.argv > 1 then mask_of_string Sys.argv.(1) else mask_all in
